@@ -21,7 +21,7 @@ import copy
 import sys
 from dataclasses import dataclass, field
 
-from .effects import Unknown, eval_test
+from .effects import Unknown, ceval, eval_test
 from .model import FuncInfo, Program, calls_in_order, dotted, unparse
 
 sys.setrecursionlimit(max(sys.getrecursionlimit(), 20000))
@@ -221,6 +221,9 @@ class Explorer:
                 # the binding itself is done by _bind_walrus before; the expression reads as its value
                 return rb(n.value, shadow)
             if isinstance(n, (ast.ListComp, ast.SetComp, ast.GeneratorExp, ast.DictComp)):
+                exp = self._expand_comprehension(n, st, shadow, rb)
+                if exp is not None:
+                    return exp
                 inner = shadow | _comp_targets(n.generators)
                 new = copy.copy(n)
                 gens = []
@@ -261,12 +264,142 @@ class Explorer:
                     setattr(new, f, rb(v, shadow))
                 elif isinstance(v, list):
                     setattr(new, f, [rb(x, shadow) if isinstance(x, ast.AST) else x for x in v])
+            if isinstance(new, (ast.Subscript, ast.Attribute)) and isinstance(getattr(new, "ctx", None), ast.Load):
+                return self._simplify(new)
+            if isinstance(new, ast.Call) and isinstance(new.func, ast.Name) and new.func.id == "len" and len(new.args) == 1 and not new.keywords:
+                a = new.args[0]
+                if isinstance(a, (ast.List, ast.Tuple, ast.Set)) and not any(isinstance(x, ast.Starred) for x in a.elts) and not isinstance(a, ast.Set):
+                    return ast.Constant(value=len(a.elts))
+                if _const_dict(a):
+                    return ast.Constant(value=len(a.keys))
             return new
 
         out = rb(node, shadow)
         if _size(out) > 1500:
             return ast.Call(func=ast.Name(id=BIG, ctx=ast.Load()), args=[ast.Constant(value=unparse(node)[:60])], keywords=[])
         return out
+
+    # ------------------------------------------------------------------ literal containers
+    def literal_items(self, it: ast.AST, fi: FuncInfo) -> list | None:
+        """the elements of an iterable that is a literal sequence on this path: (a, b), [a, b],
+        a module-level literal tuple, zip(...) / enumerate(...) of those, d.items()/keys()/values()
+        of a dict literal"""
+
+        def seq(e):
+            if isinstance(e, (ast.Tuple, ast.List)) and not any(isinstance(x, ast.Starred) for x in e.elts):
+                return list(e.elts)
+            if isinstance(e, ast.Name):
+                try:
+                    hits = self.prog.lookup(fi.module, e.id, fi.variant)
+                except Exception:  # noqa: BLE001
+                    hits = []
+                vals = [h.value for h in hits if getattr(h, "kind", "") == "global" and h.value is not None]
+                if len(vals) == 1 and isinstance(vals[0], (ast.Tuple, ast.List)) and all(isinstance(x, ast.Constant) for x in vals[0].elts):
+                    return list(vals[0].elts)
+            if isinstance(e, ast.Subscript) and isinstance(e.slice, ast.Slice) and e.slice.step is None:
+                base = seq(e.value)
+                lo, hi = e.slice.lower, e.slice.upper
+                if base is not None and all(b is None or (isinstance(b, ast.Constant) and isinstance(b.value, int)) for b in (lo, hi)):
+                    return base[(lo.value if lo else None) : (hi.value if hi else None)]
+            if isinstance(e, ast.Call) and isinstance(e.func, ast.Name) and e.func.id in ("list", "tuple") and len(e.args) == 1 and not e.keywords:
+                return seq(e.args[0])
+            if isinstance(e, ast.Call) and isinstance(e.func, ast.Name) and e.func.id == "zip" and e.args and not e.keywords:
+                parts = [seq(a) for a in e.args]
+                if all(p is not None for p in parts):
+                    n = min(len(p) for p in parts)
+                    return [ast.Tuple(elts=[p[i] for p in parts], ctx=ast.Load()) for i in range(n)]
+            if isinstance(e, ast.Call) and isinstance(e.func, ast.Name) and e.func.id == "enumerate" and len(e.args) == 1 and not e.keywords:
+                base = seq(e.args[0])
+                if base is not None:
+                    return [ast.Tuple(elts=[ast.Constant(value=i), x], ctx=ast.Load()) for i, x in enumerate(base)]
+            if isinstance(e, ast.Call) and isinstance(e.func, ast.Attribute) and e.func.attr in ("items", "keys", "values") and not e.args and _const_dict(e.func.value):
+                d = e.func.value
+                if e.func.attr == "keys":
+                    return list(d.keys)
+                if e.func.attr == "values":
+                    return list(d.values)
+                return [ast.Tuple(elts=[kk, vv], ctx=ast.Load()) for kk, vv in zip(d.keys, d.values)]
+            if _const_dict(e):
+                return list(e.keys)
+            return None
+
+        return seq(it)
+
+    def _expand_comprehension(self, n, st: "_State", shadow, rb):
+        """[f(x) for x in (a, b) if c(x)] -> [f(a), f(b)] when the iterable is a literal sequence on this
+        path and every filter is decided; None when it cannot be expanded"""
+        if len(n.generators) != 1 or n.generators[0].is_async:
+            return None
+        g = n.generators[0]
+        it = rb(g.iter, shadow)
+        fi = self._stack[-1] if self._stack else None
+        if fi is None:
+            return None
+        items = self.literal_items(it, fi)
+        if items is None or len(items) > 8:
+            return None
+        keys, vals = [], []
+        for item in items:
+            tmp = _State()
+            tmp.store = dict(st.store)
+            tmp.repl = st.repl
+            tmp.known = st.known
+            tmp.conds = st.conds
+            # bind the comprehension target(s) in a throw-away store
+            def bind(t, v):
+                if isinstance(t, ast.Name):
+                    tmp.store[t.id] = v
+                    return True
+                if isinstance(t, (ast.Tuple, ast.List)) and isinstance(v, (ast.Tuple, ast.List)) and len(t.elts) == len(v.elts):
+                    return all(bind(a, b) for a, b in zip(t.elts, v.elts))
+                return False
+
+            if not bind(g.target, item):
+                return None
+            keep = True
+            for c in g.ifs:
+                d = self.decide(self.subst(c, tmp, shadow), st)
+                if d is None:
+                    return None
+                if d is False:
+                    keep = False
+                    break
+            if not keep:
+                continue
+            if isinstance(n, ast.DictComp):
+                kk = self.subst(n.key, tmp, shadow)
+                if not isinstance(kk, ast.Constant):
+                    return None
+                keys.append(kk)
+                vals.append(self.subst(n.value, tmp, shadow))
+            else:
+                vals.append(self.subst(n.elt, tmp, shadow))
+        if isinstance(n, ast.DictComp):
+            return ast.Dict(keys=keys, values=vals)
+        if isinstance(n, ast.ListComp):
+            return ast.List(elts=vals, ctx=ast.Load())
+        if isinstance(n, ast.SetComp):
+            return None
+        return ast.Tuple(elts=vals, ctx=ast.Load())
+
+    def _simplify(self, n: ast.AST) -> ast.AST:
+        """local rewrites on freshly substituted nodes: {k: v}[k] -> v, C(f=v).f -> v for dataclasses"""
+        if isinstance(n, ast.Subscript) and isinstance(n.slice, ast.Constant) and _const_dict(n.value):
+            for kk, vv in zip(n.value.keys, n.value.values):
+                if kk.value == n.slice.value:
+                    return vv
+        if isinstance(n, ast.Subscript) and isinstance(n.slice, ast.Constant) and isinstance(n.slice.value, int) and isinstance(n.value, (ast.Tuple, ast.List)):
+            elts = n.value.elts
+            if -len(elts) <= n.slice.value < len(elts) and not any(isinstance(x, ast.Starred) for x in elts):
+                return elts[n.slice.value]
+        if isinstance(n, ast.Attribute) and isinstance(n.value, ast.Call) and n.value.keywords and not n.value.args:
+            kws = {kw.arg: kw.value for kw in n.value.keywords if kw.arg}
+            if n.attr in kws:
+                cname = (dotted(n.value.func) or "").split(".")[-1]
+                cis = self.prog.find_classes(cname) if cname[:1].isupper() else []
+                if cis and all(c.is_dataclass and "__post_init__" not in c.methods and n.attr not in c.methods for c in cis):
+                    return kws[n.attr]
+        return n
 
     # ------------------------------------------------------------------ three-valued tests
     def decide(self, t: ast.AST, st: _State):
@@ -294,6 +427,16 @@ class Explorer:
                 if any(v is True for v in vals):
                     return True
                 return False if all(v is False for v in vals) else None
+            if isinstance(e, ast.Compare) and len(e.ops) == 1 and isinstance(e.ops[0], (ast.In, ast.NotIn)) and isinstance(e.left, ast.Constant):
+                c = e.comparators[0]
+                keys = None
+                if _const_dict(c):
+                    keys = [kk.value for kk in c.keys]
+                elif isinstance(c, (ast.Tuple, ast.List, ast.Set)) and all(isinstance(x, ast.Constant) for x in c.elts):
+                    keys = [x.value for x in c.elts]
+                if keys is not None:
+                    r = e.left.value in keys
+                    return r if isinstance(e.ops[0], ast.In) else not r
             if isinstance(e, ast.Compare) and len(e.ops) == 1 and isinstance(e.ops[0], (ast.Is, ast.IsNot)) and isinstance(e.comparators[0], ast.Constant) and e.comparators[0].value is None:
                 # `x is None` for an x that is syntactically a fresh object
                 if isinstance(e.left, (ast.Call, ast.List, ast.Dict, ast.Tuple, ast.BinOp, ast.JoinedStr)) and not (isinstance(e.left, ast.Call) and (dotted(e.left.func) or "").split(".")[-1] in ("get", "pop", "getattr", ELEM, LOOP, ENTER)):
@@ -307,6 +450,11 @@ class Explorer:
                 pass
             except Exception:  # noqa: BLE001 - malformed environment entries must not kill the exploration
                 pass
+            if isinstance(e, ast.Compare) and all(isinstance(x, ast.Constant) for x in [e.left, *e.comparators]):
+                try:
+                    return bool(ceval(e, {}))
+                except Exception:  # noqa: BLE001
+                    pass
             return unit(e, txt)
 
         busy: set = set()
@@ -342,7 +490,35 @@ class Explorer:
 
         return tv(t)
 
+    def _reduce(self, t: ast.AST, st: _State) -> ast.AST:
+        """drop the members of and/or tests that are already decided on this path"""
+        if isinstance(t, ast.BoolOp):
+            is_and = isinstance(t.op, ast.And)
+            keep = []
+            for v in t.values:
+                v = self._reduce(v, st)
+                d = self.decide(v, st)
+                if d is None:
+                    keep.append(v)
+                elif d != is_and:
+                    return ast.Constant(value=d)
+            if not keep:
+                return ast.Constant(value=is_and)
+            if len(keep) == 1:
+                return keep[0]
+            new = copy.copy(t)
+            new.values = keep
+            return new
+        if isinstance(t, ast.UnaryOp) and isinstance(t.op, ast.Not):
+            inner = self._reduce(t.operand, st)
+            if inner is not t.operand:
+                new = copy.copy(t)
+                new.operand = inner
+                return new
+        return t
+
     def _assume(self, t: ast.AST, pol: bool, st: _State, node: ast.AST) -> None:
+        t = self._reduce(t, st)
         st.conds.append((t, pol, node))
 
         def learn(e, p):
@@ -400,6 +576,21 @@ class Explorer:
             tsub.value = self.subst(target.value, st)
             tsub.slice = self.subst(target.slice, st)
             self._emit(st, "store", tsub, value, node, fi, depth)
+            # d[k] = v on a dict literal that is still owned by a local name: functional update of the literal
+            if isinstance(target.value, ast.Name) and target.value.id in st.store and isinstance(tsub.slice, ast.Constant):
+                cur = st.store[target.value.id]
+                if isinstance(cur, ast.Call) and isinstance(cur.func, ast.Name) and cur.func.id == "dict" and not cur.args and not cur.keywords:
+                    cur = ast.Dict(keys=[], values=[])
+                if _const_dict(cur):
+                    keys, vals = list(cur.keys), list(cur.values)
+                    for i, kk in enumerate(keys):
+                        if kk.value == tsub.slice.value:
+                            vals[i] = value
+                            break
+                    else:
+                        keys.append(tsub.slice)
+                        vals.append(value)
+                    st.store[target.value.id] = ast.Dict(keys=keys, values=vals)
 
     def _walrus(self, expr: ast.AST, st: _State, fi, depth) -> None:
         for n in ast.walk(expr):
@@ -756,8 +947,21 @@ class Explorer:
                 return self._block(s.orelse, 0, s2, fi, depth, _Kont(normal=nxt, ret=k.ret, exc=k.exc, brk=k.brk, cont=k.cont, catches=k.catches))
             return nxt(s2)
 
+        def unroll(items, i, s2):
+            if i >= len(items):
+                if s.orelse:
+                    return self._block(s.orelse, 0, s2, fi, depth, _Kont(normal=nxt, ret=k.ret, exc=k.exc, brk=k.brk, cont=k.cont, catches=k.catches))
+                return nxt(s2)
+            self._bind(s.target, items[i], s2, fi, depth, s)
+            step = lambda x: unroll(items, i + 1, x)  # noqa: E731
+            return self._block(s.body, 0, s2, fi, depth, _Kont(normal=step, ret=k.ret, exc=k.exc, brk=nxt, cont=step, catches=k.catches))
+
         def then(s2):
             it = self.subst(s.iter, s2)
+            items = self.literal_items(it, fi)
+            if items is not None and len(items) <= 8:
+                yield from unroll(items, 0, s2)
+                return
             if self.zero_iter:
                 s0 = s2.fork()
                 yield from after(s0)
@@ -950,6 +1154,10 @@ def _if_of(stmt: ast.stmt, value: ast.IfExp, make) -> ast.If:
     node = ast.If(test=value.test, body=[arms[0]], orelse=[arms[1]])
     ast.copy_location(node, stmt)
     return node
+
+
+def _const_dict(e) -> bool:
+    return isinstance(e, ast.Dict) and all(isinstance(kk, ast.Constant) for kk in e.keys)
 
 
 def _as_load(t: ast.AST) -> ast.AST:
